@@ -160,6 +160,11 @@ func (tl *store) Resolve(id did.DID, resolveMetadata *resolver.ResolveMetadata) 
 				// We're trying to resolve the latest, it should not return an older (active) version when deactivated
 				return resolver.ErrDeactivated
 			}
+			if metadata.Deactivated && deactivatedAtResolveTime(metadata, resolveMetadata) {
+				// Deactivation is final: the document was deactivated at the requested moment,
+				// it should not return the older (active) version that precedes the deactivation
+				return resolver.ErrDeactivated
+			}
 			if matches(metadata, resolveMetadata) {
 				mdTmp := metadata.asVDRMetadata()
 				returnMetadata = &mdTmp
@@ -330,6 +335,18 @@ func matches(metadata documentMetadata, resolveMetadata *resolver.ResolveMetadat
 	}
 
 	return true
+}
+
+// deactivatedAtResolveTime returns true when the document is resolved at a moment in time (not by hash or source transaction),
+// the given (deactivated) version was in effect at that moment, and deactivated documents are not asked for.
+func deactivatedAtResolveTime(metadata documentMetadata, resolveMetadata *resolver.ResolveMetadata) bool {
+	if resolveMetadata == nil || resolveMetadata.AllowDeactivated || resolveMetadata.ResolveTime == nil {
+		return false
+	}
+	if resolveMetadata.Hash != nil || resolveMetadata.SourceTransaction != nil {
+		return false
+	}
+	return !metadata.Updated.After(*resolveMetadata.ResolveTime)
 }
 
 // latestNonDeactivatedRequested is a combination of checks on the resolveMetadata when a deactivated document is resolved
